@@ -14,7 +14,7 @@ import ast
 from ..absint import Config, Interp, RaiseSig
 from ..harness import rule
 from ..index import AnalysisError, text
-from ..models import BASE_STUBS, LEN_MAX, frame_stubs, mask_stub, mk_websocket, recv_config, set_cont_state
+from ..models import BASE_STUBS, LEN_MAX, frame_stubs, mask_stub, mk_websocket, recv_config, set_cont_state, mk_frame_buffer
 from ..rulekit import CLOSED_EXC, TIMEOUT_EXC, exc_is, isym, new_dict, new_list, new_obj, path_text
 from ..values import C, FALSE, INF, NONE, TRUE, App, Ext, HObj, Ref, Sym, Tup, concat
 
@@ -38,7 +38,7 @@ def r1(ctx):
     I = Interp(ctx.index, Config(stubs={"recv_fn": recv_stub}, loop_unroll=3))
 
     def body(run):
-        fb = new_obj(run, "_abnf:frame_buffer", "fb", recv=Sym("recv_fn", "func"), recv_buffer=new_list(run, [Sym("held", "bytes")]))
+        fb = mk_frame_buffer(I, run, [Sym("held", "bytes")])
         return I.call(run, I.getattr(run, fb, "recv_strict", None), [isym(run, "n", 0, LEN_MAX)], {}, None)
 
     outs = ctx.count_paths(I.explore(body))
